@@ -122,17 +122,28 @@ def run_case(case):
                 for attempt in range(4):
                     r = sim.submit(n, ('append', b'closing'))
                     sub = sim.subs[r[1]]
+                    term0 = max(sim.nodes[x].raftCurrentTerm for x in comp)
+                    since_change = None
                     for rounds2 in range(1, bound2 + 1):
                         sim.calm_round()
                         sim.check(light=True)
                         if sub['cbs']:
                             break
+                        # the leader changed after the submission and the entry was cut off: the callback of such a
+                        # command fires only when something else is applied at its position (open outcome, like
+                        # LEADER_CHANGED) - an idle cluster never does that, a client gives up and retries
+                        if max(sim.nodes[x].raftCurrentTerm for x in comp) > term0:
+                            since_change = (since_change or 0) + 1
+                            if since_change >= 100:
+                                break
                     # QUEUE_FULL is a definite refusal that a tiny commandsQueueSize allows whenever another command
                     # arrived between two ticks: a client retries; a queue that is never drained still fails 4 times.
                     # MISSING_LEADER / NOT_LEADER / LEADER_CHANGED / DISCARDED (the entry lost its position to a new leader's): the leader found at the start of the quiet phase may
                     # still step down once because of the silence *before* the faults stopped (leaderFallbackTimeout);
                     # a client retries after the next election; leadership that keeps changing still fails 4 times.
                     codes = [e for _, e, _ in sub['cbs']]
+                    if not codes and since_change is not None and since_change >= 100:
+                        codes = [5]         # treated like LEADER_CHANGED
                     if codes == [1]:
                         for _ in range(5):
                             sim.calm_round()
